@@ -1143,10 +1143,13 @@ fn simulate_run(seed: u64, run: u64, fault_free: bool, stats: &mut Stats) -> (Sc
                             // shifted by 0..3 ASCII bytes so that character boundaries fall everywhere
                             let pad = &"   "[..rng.usize_below(4)];
                             let tail = *rng.pick(&TAILS);
-                            if rng.bool() {
-                                format!("{}{}{}", own, pad, tail)
-                            } else {
-                                format!("{}{}{}{}", own, pad, tail, tail)
+                            // ... or only a prefix of the value (its first field, its first two fields, ...),
+                            // so that the text is refused at a separator and not at its end
+                            let own = if rng.chance(1, 3) { own[..rng.usize_below(own.len() + 1)].to_string() } else { own };
+                            match rng.below(3) {
+                                0 => format!("{}{}{}", own, pad, tail),
+                                1 => format!("{}{}{}{}", own, pad, tail, tail),
+                                _ => format!("{}{}{}{}{}{}", own, pad, tail, tail, tail, tail),
                             }
                         }
                         0 => format!("{}{}", own.replacen(' ', "T", 1), zone),
